@@ -142,8 +142,8 @@ def _gen_hist(rng, n):
             ops.append(["pid"])
         else:
             m = rng.choice(MNAMES)
-            if m == "ppid" and st["stat"] == ["D"]:
-                m = "cpu_num"
+            if m == "ppid" and (st["stat"] == ["D"] or (dead and rng.random() < 0.8)):
+                m = "cpu_num"   # ppid() with stat unreadable / process gone: outside the specification's domain
             ops.append(["call", m])
     return init, ops
 
